@@ -168,7 +168,9 @@ class Mutator:
             x=self.state.get_current("x"),
             logl=self.state.get_current("logl"),
             blobs=blobs,
-            assignments=self.state.get_current("assignments"),
+            assignments=mode_stats.mode_index(
+                self.state.get_current("assignments"), self.state.get_current("u")
+            ),
             beta=self.state.get_current("beta"),
             mode_stats=mode_stats,
             log_likelihood=self.log_likelihood,
